@@ -66,7 +66,10 @@ pub open spec fn tx_num_outputs(t: Transaction) -> nat { body_num_outputs(t.body
 pub uninterp spec fn body_fee_total(b: u64) -> u64;
 pub open spec fn tx_fee_total(t: Transaction) -> u64 { body_fee_total(t.body.t) }
 pub uninterp spec fn kernel_verifies(k: TxKernelFull) -> bool;         // kernel signature valid for its excess and message
-pub uninterp spec fn tx_valid(t: Transaction) -> bool;                 // Transaction::validate(Weighting::AsTransaction)
+// Transaction::validate(weighting): consensus validity under the given weight ceiling; a transaction to be relayed must be
+// valid AsTransaction (block weight minus the room of the coinbase)
+pub uninterp spec fn tx_valid_w(t: Transaction, w: Weighting) -> bool;
+pub open spec fn tx_valid(t: Transaction) -> bool { tx_valid_w(t, Weighting::AsTransaction) }
 pub uninterp spec fn spec_kernels_fee(k: Seq<TxKernelFull>) -> u64;
 pub uninterp spec fn spec_replace_kernel(t: Transaction, k: TxKernelFull) -> Transaction;
 #[verifier::external_body]
@@ -106,7 +109,7 @@ impl Transaction {
         ensures tx_kernels(r) == tx_kernels(self).push(k), body_inputs(r.body) == body_inputs(self.body), body_outputs(r.body) == body_outputs(self.body), r.offset == self.offset
     { unimplemented!() }
     #[verifier::external_body]
-    pub fn validate(&self, w: Weighting) -> (r: Result<(), transaction::Error>) ensures (r is Ok) == tx_valid(*self) { unimplemented!() }
+    pub fn validate(&self, w: Weighting) -> (r: Result<(), transaction::Error>) ensures (r is Ok) == tx_valid_w(*self, w) { unimplemented!() }
 }
 // inputs / outputs of a transaction body (grin_core::core::transaction): `Inputs` is either the current
 // features-and-commit list or the legacy commit-only list
